@@ -16,7 +16,6 @@ Driver for C10.  One request per line, `k=v` fields separated by single spaces:
 Answer: `model=<raw model result> modelN=<model result, value normalised> spec=<spec result> inK=<flags>`
 flags: `w` the string contains a character that Python treats as white space but XSD does not
        `v` the string is not in whitespace-normal form (s ≠ wsCollapse s)
-       `d` (op=cast, double -> string) the double lies where string_value and the F&O canonical form differ (F10b)
        `r` (op=cast, double operand) the model `pyRepr` of CPython's repr(float) does not reproduce the given repr
        `o` (op=cast, integer -> double) the integer is too large for float(int) (F10o)
        `n` (op=name; cannot occur while EPV.C10.name_tables_agree holds) some character of the collapsed string is classified differently by the code's `\w`-based
@@ -250,7 +249,7 @@ def castAnswer (fs : List (String × String)) : String :=
              -- `r` flags a repr string that the model `pyRepr` of CPython's repr does not reproduce
              let rflag := if !ds.isEmpty && LexLemmas.pyRepr ng ds e != r then "r" else ""
              some (.dbl x r, .dbl sx ds e,
-               (if !ds.isEmpty && Lex.dblStrTrigger ds.length e then "d" else "") ++ rflag)
+               rflag)
            | none => none)
         | _ => some (.dbl x r, .dbl sx [] 0, "")
       | _, _ => none
@@ -262,7 +261,6 @@ def castAnswer (fs : List (String × String)) : String :=
       | .ok v => (showCVal v, showCValN v)
       | .error e => (showCErr e, "ERR")
     let sp := match XSD.castSpec sa st with | some v => showSVal v | none => "ERR"
-    -- the string targets are affected by F10b only; the flag is irrelevant for other targets
     let fl := if tname == "string" || tname == "untypedAtomic" then fl else fl.replace "d" ""
     out mtxt mn sp fl
   | _, _ => "bad-cast-request"
